@@ -17,7 +17,7 @@ FILES = ["base/src/utils/mod.rs", "base/src/utils/mem.rs", "base/src/utils/iter.
          "io/src/common/io.rs", "io/src/blocking/io.rs", "io/src/blocking/recv.rs", "io/src/blocking/send.rs",
          "io/src/async_/io.rs", "io/src/async_/recv.rs", "io/src/async_/send.rs",
          "macros/src/items/base.rs", "macros/src/items/cast.rs", "macros/src/items/init.rs", "macros/src/items/unsized_.rs",
-         "macros/src/items/default.rs", "macros/src/items/tag.rs", "portable/src/int.rs", "portable/src/float.rs"]
+         "macros/src/items/enum_.rs", "macros/src/items/unsized_enum.rs", "macros/src/items/tag.rs", "portable/src/int.rs", "portable/src/float.rs"]
 RULES = [(r" < ", " <= "), (r" <= ", " < "), (r" > ", " >= "), (r" >= ", " > "), (r" \+ 1\b", ""), (r" - 1\b", ""),
          (r"\bceil_mul\(", "floor_mul("), (r"\bfloor_mul\(", "ceil_mul("), (r"\bmax\(", "min("), (r"\bmin\(", "max("),
          (r"::ALIGN\b", "::SIZE"), (r"\bSelf::DATA_OFFSET\b", "Self::ALIGN"), (r" == 0\b", " != 0"), (r" != 0\b", " == 0")]
@@ -59,9 +59,10 @@ def main():
     ap.add_argument("--n", type=int, default=30)
     ap.add_argument("--seed", type=int, default=1)
     ap.add_argument("--props", default=",".join(f"C{i:02d}" for i in range(1, 21)))
+    ap.add_argument("--files", default="", help="substring filter on the file path (e.g. io/)")
     a = ap.parse_args()
     props = a.props.split(",")
-    all_sites = sites()
+    all_sites = [x for x in sites() if a.files in x[0]]
     rnd = random.Random(a.seed)
     rnd.shuffle(all_sites)
     outp = os.path.join(VERIF, ".build", "mutscore.jsonl")
